@@ -63,6 +63,7 @@ type simCluster struct {
 	asked  map[uint64]map[uint64]bool // candidate -> voters already asked in this election
 	respCh map[uint64]chan rpcResponse
 	slow   bool
+	imager *crashImager // crash imaging of storage-mutating events (crashsim driver)
 	boot   map[uint64]Node
 	trace  []string
 	// ghost ledgers for the monitors
@@ -356,6 +357,18 @@ func (c *simCluster) run(n *simNode, desc, ev string, fn func() (response, []str
 	preCommit := n.r.commitIndex
 	preRemoveLTE := n.l.removeLTE
 	var o stepObs
+	if c.imager != nil {
+		inner := fn
+		// entries up to this bound are not legitimately removed by the event
+		bound := uint64(1<<63 - 1)
+		if strings.HasPrefix(ev, "(EAppendReq") || strings.HasPrefix(ev, "(ESnapReq") {
+			bound = n.r.commitIndex
+		}
+		fn = func() (resp response, msgs []string) {
+			c.imager.imaged(n, desc, bound, func() { resp, msgs = inner() })
+			return
+		}
+	}
 	func() {
 		defer func() {
 			if v := recover(); v != nil {
